@@ -153,7 +153,7 @@ MUTATIONS: list[tuple[str, str, str, str, list[str]]] = [
     ("c17-check-request-strict", BM, "in_upper_range = bounds.exclusion_upper <= power <= bounds.inclusion_upper", "in_upper_range = bounds.exclusion_upper <= power < bounds.inclusion_upper", ["C17"]),
     ("c17-calculator-sums-max", MC, "            inclusion_bounds_upper += min(\n                aggregated_bat_bounds.inclusion_upper,", "            inclusion_bounds_upper += max(\n                aggregated_bat_bounds.inclusion_upper,", ["C17"]),
     ("c17-calculator-excl-min-inverter", MC, "            exclusion_bounds_upper += max(\n                aggregated_bat_bounds.exclusion_upper,\n                sum(bound.exclusion_upper for bound in inverter_bounds),",
-     "            exclusion_bounds_upper += max(\n                aggregated_bat_bounds.exclusion_upper,\n                min(bound.exclusion_upper for bound in inverter_bounds),", []),
+     "            exclusion_bounds_upper += max(\n                aggregated_bat_bounds.exclusion_upper,\n                min(bound.exclusion_upper for bound in inverter_bounds),", ["C17"]),
     # ---- C16 / C18
     ("c16-and-to-or", BST, "            self._battery.last_msg_correct and self._inverter.last_msg_correct\n", "            self._battery.last_msg_correct or self._inverter.last_msg_correct\n", ["C16"]),
     ("c16-drop-capacity-check", BST, "            and self._no_critical_error(bat_data)\n            and self._is_capacity_present(bat_data)", "            and self._no_critical_error(bat_data)", ["C16"]),
